@@ -773,7 +773,13 @@ def check_score_unit(ctx, rng, case=None):
 
 def gen_file_case(rng, tier):
     th = ru.random_thresholds(rng)
-    prob = ru.StatsProblem(rng, th=th)
+    if tier == 'thorough' and rng.random() < 0.06:
+        # many pairs: several chunks, n_per in {8, 16, 24, 48} depending on
+        # the worker count; last chunk of 1..n_per pairs
+        prob = ru.StatsProblem(rng, th=th, n_leaves=rng.randint(10, 15),
+                               n_genes=rng.choice([3, 8, 12]))
+    else:
+        prob = ru.StatsProblem(rng, th=th)
     G = len(prob.genes)
     r = rng.random()
     if r < 0.5:
